@@ -111,6 +111,17 @@ theorem json_samples_admitted (e : SEnv) (docs : List (List (Str × JVal))) (nam
   obtain ⟨d, _, hd⟩ := mapM_option_mem _ docs css h cs hcs
   exact mapDict_nodup e d name cs hd c hccs
 
+/-- **json_documents_admitted.** The same for whole JSON documents as `process_json_documents` takes
+them: an object, or an array of objects. -/
+theorem json_documents_admitted (e : SEnv) (docs : List JVal) (name : Str) (css : List (List Cls))
+    (h : docs.mapM (fun d => mapJsonDoc e d name) = .ok css) : allAdmitted css.flatten = some true := by
+  apply allAdmitted_true
+  intro c hc
+  simp only [List.mem_flatten] at hc
+  obtain ⟨cs, hcs, hccs⟩ := hc
+  obtain ⟨d, _, hd⟩ := exceptMapM_mem _ docs css h cs hcs
+  exact mapJsonDoc_nodup e d name cs hd c hccs
+
 /-! ### down to the fields of the generated dataclasses -/
 
 /-- **xml_fields_admit_samples.** For any XML documents: run the mappers, `reduce_classes` and the
